@@ -351,7 +351,7 @@ def run(tier: str, seed: int) -> Result:
                 work.append((kind, cfg, k, None, dev))
                 # doubles with a stale consumer from the first interrupt: second at every later event
                 for k2 in range(k + 1, min(K + 400, k + (60 if tier == 'quick' else 250)) + 1):
-                    work.append((kind, cfg, k, k2, 1 if tier == 'quick' else 2))
+                    work.append((kind, cfg, k, k2, 1))
             # doubles whose *second* interrupt lands on a join: first at a representative line
             rr = reps[:: max(1, len(reps) // (12 if tier == 'quick' else 60))]
             thr_first.extend((kind, cfg, k1) for k1 in rr if k1 not in J)
